@@ -23,7 +23,7 @@ func Bits(bitlen uint, exact bool, rand cipher.Stream) []byte {
 	if highbits != 0 {
 		b[0] &= ^(0xff << highbits)
 	}
-	if exact {
+	if exact && bitlen > 0 {
 		if highbits != 0 {
 			b[0] |= 1 << (highbits - 1)
 		} else {
